@@ -121,6 +121,7 @@ func (vm *VM) runPendingGoroutines() int {
 			savedDepth := vm.depth
 			savedThread := vm.P.curThread
 			savedHeld := vm.P.heldOrder
+			var parkedHeld []string
 			if pg.tid != 0 {
 				vm.P.curThread = pg.tid
 				vm.P.heldOrder = nil
@@ -136,9 +137,31 @@ func (vm *VM) runPendingGoroutines() int {
 				if r := recover(); r != nil {
 					if _, ok := r.(*blockedSignal); ok {
 						parked++
+						// the locks a parked goroutine holds stay taken for the rest of the history
+						for _, k := range parkedHeld {
+							if ls := vm.P.locks[k]; ls != nil && (ls.w || ls.r > 0) {
+								ls.other = true
+								ls.label += " (held by a parked goroutine)"
+							}
+						}
 						return
 					}
 					panic(r)
+				}
+			}()
+			defer func() {
+				// runs first: what the goroutine itself still holds when it stops
+				parkedHeld = nil
+				for _, k := range vm.P.heldOrder {
+					mine := true
+					for _, h := range savedHeld {
+						if h == k {
+							mine = false
+						}
+					}
+					if mine {
+						parkedHeld = append(parkedHeld, k)
+					}
 				}
 			}()
 			if pg.invoke != nil {
